@@ -58,6 +58,8 @@ class Analyzer3:
         self.reqs = reqs         # fn name -> {param index: k}
         self.cfg = fn.cfg()
         self.sites = {}
+        self.returns = []
+        self.broken = None
 
     def is_charp(self, tid):
         t = self.u.ty(tid)
@@ -200,6 +202,12 @@ class Analyzer3:
                     self.assign_int(st, d['d'], ev.rhs)
             elif ev.kind == 'call':
                 self.do_call(ev.node, st, record)
+        if record and node.kind == 'return' and node.expr is not None and self.is_charp(self.fn.ret):
+            pn = self.norm(node.expr)
+            inside = bool(pn) and pn[0] in self.tracked and pn[1] >= 0 and st.nz.get(pn[0], NEG) >= pn[1]
+            if is_null_const(node.expr):
+                inside = True
+            self.returns.append(inside)
         return st
 
     def span_position(self, rhs, st):
@@ -214,6 +222,23 @@ class Analyzer3:
             if pn and pn[1] >= 0 and y0.get('k') == 'call' and callee_name(y0) in ('strlen', 'strcspn', 'strspn') and y0['args'] and \
                     self.norm(y0['args'][0]) == pn and pn[0] in self.tracked and st.nz.get(pn[0], NEG) >= pn[1]:
                 return pn[0]
+        return None
+
+    def returned_position(self, rhs, st):
+        """key X when rhs is h(.., X + k, ..) for a helper h of this unit every non-NULL return of which was shown (by this same
+        analysis of h) to be a position inside the string its cursor parameter points into, and X + k is inside with what h needs"""
+        r = strip_casts(rhs)
+        if r.get('k') != 'call':
+            return None
+        rs = self.reqs.get('@ret', {}).get(callee_name(r))
+        if not rs:
+            return None
+        (pi, need) = rs
+        if pi >= len(r['args']):
+            return None
+        pn = self.norm(r['args'][pi])
+        if pn and pn[1] >= 0 and pn[0] in self.tracked and st.nz.get(pn[0], NEG) >= pn[1] + need:
+            return pn[0]
         return None
 
     def search_result(self, rhs, st):
@@ -244,7 +269,7 @@ class Analyzer3:
             self.tracked.add(name)
             st.pend[name] = sr
             return
-        if self.span_position(rhs, st) is not None and name in self.readkeys:
+        if (self.span_position(rhs, st) is not None or self.returned_position(rhs, st) is not None) and name in self.readkeys:
             self.tracked.add(name)
             st.nz[name] = 0
             return
@@ -283,27 +308,37 @@ class Analyzer3:
         key = self.key(ev.lhs)
         if key:
             if op == '=':
+                # what the right-hand side is, judged before the old value of the cursor is forgotten (x = f(x))
+                sr = self.search_result(a['r'], st)
+                sp = self.span_position(a['r'], st)
+                rp = self.returned_position(a['r'], st)
                 st.nz.pop(key, None)
                 st.back.pop(key, None)
                 st.pend.pop(key, None)
                 for k in [k for k in st.rel if k[0] == key]:
                     del st.rel[k]
-                sr = self.search_result(a['r'], st)
                 if sr is not None and key in self.readkeys:
                     self.tracked.add(key)
                     st.pend[key] = sr
                     return
-                if self.span_position(a['r'], st) is not None and key in self.readkeys:
+                if (sp is not None or rp is not None) and key in self.readkeys:
+                    via = 'the end of a span of the same string' if sp is not None else \
+                        'what %s returns is a position inside the string it is given (shown for each of its returns)' % callee_name(strip_casts(a['r']))
                     self.tracked.add(key)
                     st.nz[key] = 0
                     if key.startswith('*') and record:
-                        self.site('BND3', a, 'cursor handed back through %s is a position inside the string' % key, True,
-                                  'the end of a span of the same string', 'handback:%s' % key)
+                        self.site('BND3', a, 'cursor handed back through %s is a position inside the string' % key, True, via, 'handback:%s' % key)
                     return
                 pn = self.norm(a['r'])
                 if key.startswith('*') and key in self.tracked and record:
                     # the caller goes on reading at the cursor handed back: it has to be a position inside the string
                     nzs = st.nz.get(pn[0], NEG) if (pn and pn[0] in self.tracked) else NEG
+                    r0 = strip_casts(a['r'])
+                    if pn is None and r0.get('k') == 'call' and callee_name(r0) in self.u.functions and \
+                            callee_name(r0) not in self.reqs.get('@ret', {}):
+                        self.broken = 'BND3: %s hands back what %s returns, and not every return of %s could be placed inside the ' \
+                                      'string it is given' % (self.fn.name, callee_name(r0), callee_name(r0))
+                        return
                     self.site('BND3', a, 'cursor handed back through %s is a position inside the string' % key,
                               nzs > NEG and pn[1] <= nzs, 'derived from %s with %s non-terminator byte(s) proved' % (
                                   pn[0], nzs) if nzs > NEG else 'not derived from a cursor known to be inside the string',
@@ -413,7 +448,8 @@ class Analyzer3:
                     self.site('BND3', call, 'call %s needs a string cursor with %d non-terminator byte(s) at %s' % (cn, need, expr_str(a0)[:30]),
                               ok, 'proved %s at %s' % (nz if nz > NEG else 'nothing', pn[0]), 'call:%s:%s' % (cn, expr_str(a0)[:30]))
                 # a callee writing through a non-const char* may move the terminator closer
-                if callee is not None and not self.u.ty(callee.params[i]['ty']).get('pointee_const') and i < len(callee.params):
+                if callee is not None and i < len(callee.params) and not self.u.ty(callee.params[i]['ty']).get('pointee_const') and \
+                        _writes_strings(self.u, callee):
                     if pn[0] in st.nz:
                         st.nz[pn[0]] = min(st.nz[pn[0]], max(pn[1], 0))
 
@@ -493,11 +529,46 @@ class Analyzer3:
             init.nz[k] = v
         states = solve(self.cfg, init, lambda n, s: self.transfer(n, s), self.refine, join3)
         self.sites = {}
+        self.returns = []
         for n in self.cfg.nodes:
             if n.id in states:
                 self.transfer(n, states[n.id], record=True)
         self.states = states
         return list(self.sites.values())
+
+
+_ws_cache = {}
+
+
+def _writes_strings(u, fn, depth=0):
+    """does fn (or what it calls in this unit) store through a character pointer or hand one to a writing libc function?"""
+    key = (id(u), fn.name)
+    if key in _ws_cache:
+        return _ws_cache[key]
+    _ws_cache[key] = True          # recursion: assume it does
+    res = False
+    for n in fn.cfg().nodes:
+        for ev in node_effects(n):
+            if ev.kind in ('store', 'incdec') and ev.lhs is not None:
+                acc = access(ev.lhs)
+                if acc is not None:
+                    b = strip_casts(acc[0])
+                    t = u.ty(b.get('ty0', b.get('ty'))) if b.get('ty') is not None else None
+                    if t is not None and t['c'] in ('ptr', 'array') and 'char' in t['s']:
+                        res = True
+            elif ev.kind == 'call':
+                cn = callee_name(ev.node)
+                if cn in ('memcpy', 'memmove', 'strcpy', 'strcat', 'sprintf', 'memset', 'strncpy', 'strncat'):
+                    res = True
+                elif cn in u.functions and u.functions[cn].body is not None:
+                    g = u.functions[cn]
+                    if any(u.ty(p['ty'])['c'] == 'ptr' and 'char' in u.ty(p['ty'])['s'] and not u.ty(p['ty']).get('pointee_const') for p in g.params):
+                        if depth > 4 or _writes_strings(u, g, depth + 1):
+                            res = True
+                elif cn is None:
+                    res = True
+    _ws_cache[key] = res
+    return res
 
 
 def _read_keys(u, fn):
@@ -570,6 +641,7 @@ def _cursor_params(u, fn):
 
 def infer(u, fns, kmax=4):
     reqs = {fn.name: {} for fn in fns}
+    reqs['@ret'] = {}
     for _round in range(8):
         changed = False
         for fn in fns:
@@ -603,6 +675,19 @@ def infer(u, fns, kmax=4):
             if new != reqs[fn.name]:
                 reqs[fn.name] = new
                 changed = True
+            # what the function hands back as its result: a position inside its (single) cursor parameter's string?
+            if len(cps) == 1 and u.ty(fn.ret)['c'] == 'ptr' and 'char' in u.ty(fn.ret)['s']:
+                an = Analyzer3(u, fn, assume, reqs)
+                an.run()
+                good = bool(an.returns) and all(an.returns)
+                cur_r = reqs.setdefault('@ret', {}).get(fn.name)
+                want = (cps[0][0], assume[cps[0][2]]) if good else None
+                if cur_r != want:
+                    if want is None:
+                        reqs['@ret'].pop(fn.name, None)
+                    else:
+                        reqs['@ret'][fn.name] = want
+                    changed = True
         if not changed:
             break
     return reqs
@@ -615,16 +700,44 @@ POINTER = ['compare_pointers', 'pointer_encoded_length', 'encode_string_as_point
 PUBLIC_STRINGS = {'cJSON_Minify', 'get_item_from_pointer'}
 
 
+def _family(u, names):
+    """the named functions plus every function of the unit they reach that takes a character cursor (char * / char **): a helper
+    split off one of them reads the same string"""
+    out = list(names)
+    work = list(names)
+    while work:
+        f = u.functions.get(work.pop())
+        if f is None:
+            continue
+        for c in f.calls():
+            cn = callee_name(c)
+            g = u.functions.get(cn)
+            if g is None or cn in out or g.body is None:
+                continue
+            if any(u.ty(p['ty'])['c'] == 'ptr' and 'char' in u.ty(p['ty'])['s'] for p in g.params):
+                out.append(cn)
+                work.append(cn)
+    return out
+
+
 def _run(u, names, R, floor):
+    for n_ in names:
+        if n_ not in u.functions:
+            raise AnalysisBroken('BND3: %s not found' % n_)
+    names = _family(u, names)
     fns = [u.fn(n) for n in names]
     reqs = infer(u, fns)
     n = 0
+    broken = []
     for fn in fns:
         cps = _cursor_params(u, fn)
         assume = {key: reqs[fn.name].get(i, 0) for (i, _n, key) in cps}
-        for (rule, node, what, ok, detail, key) in Analyzer3(u, fn, assume, reqs).run():
+        an = Analyzer3(u, fn, assume, reqs)
+        for (rule, node, what, ok, detail, key) in an.run():
             n += 1
             R.ob(rule, fn, node, what, ok, detail, key=key)
+        if an.broken:
+            broken.append(an.broken)
         for (i, pn, key) in cps:
             k = reqs[fn.name].get(i, 0)
             callers = [c for g in u.function_list for c in g.calls() if callee_name(c) == fn.name]
@@ -633,6 +746,8 @@ def _run(u, names, R, floor):
                      'the API contract only promises a NUL-terminated string', key='entry:%s' % key)
             R.note('BND3: %s assumes %d non-terminator byte(s) at %s on entry' % (fn.name, k, key))
     R.floor('BND3', 'string reads/advances/call requirements in %s' % names[0], n, floor)
+    if broken:
+        raise AnalysisBroken(broken[0])
 
 
 def bnd3_minify(units, R):
